@@ -1287,7 +1287,7 @@ class Executor:
         if isinstance(a, Num) and isinstance(b, Num):
             # comparison involving boolean arrays (e.g. mask == True)
             ka, kb = valkey(a), valkey(b)
-            c = Cond("opq", f"cmp{sym_op}({ka},{kb})")
+            c = Cond("opq", _opq_cmp(sym_op, ka, kb))
             return Num(None, self.bshape(a.shape, b.shape, node), "bool", cond=c)
         if isinstance(a, (TupleV, ListV)) and isinstance(b, (TupleV, ListV)) and sym_op in ("==", "!="):
             conc = not getattr(a, "opaque", False) and not getattr(b, "opaque", False)
@@ -1302,7 +1302,7 @@ class Executor:
                 return Num(None, (), "bool", cond=c if sym_op == "==" else c.neg())
             c = Cond("opq", f"seqeq({valkey(a)},{valkey(b)})")
             return Num(None, (), "bool", cond=c if sym_op == "==" else c.neg())
-        c = Cond("opq", f"cmp{sym_op}({valkey(a)},{valkey(b)})")
+        c = Cond("opq", _opq_cmp(sym_op, valkey(a), valkey(b)))
         return Num(None, (), "bool", cond=c)
 
     def is_same(self, a, b, node):
@@ -1771,6 +1771,16 @@ class Executor:
 
 
 # ------------------------------------------------------------------ utilities
+
+
+_FLIP_OP = {"<": ">", ">": "<", "<=": ">=", ">=": "<=", "==": "==", "!=": "!="}
+
+
+def _opq_cmp(op, ka, kb):
+    """key of an un-interpreted comparison, oriented canonically: `a > b` and `b < a` are one condition"""
+    if ka > kb:
+        ka, kb, op = kb, ka, _FLIP_OP[op]
+    return f"cmp{op}({ka},{kb})"
 
 
 def _prange_summary(ex, func, args, kwargs, self_obj, node):
